@@ -182,6 +182,100 @@ fn pem_variants(rep: &mut Report) {
     }
 }
 
+// ---------------------------------------------------------------- reference reading of the two key shapes
+
+/// One TLV: (tag, content, rest). Definite lengths, short or long form. Tags are compared by number only below:
+/// the DER library in use ignores the class and constructed bits and the count of unused bits of a BIT STRING -
+/// harmless leniencies (the same key is read), not judged.
+fn tlv_read(b: &[u8]) -> Option<(u8, &[u8], &[u8])> {
+    let (&tag, r) = b.split_first()?;
+    let (&l0, r) = r.split_first()?;
+    let (len, r) = if l0 < 0x80 {
+        (l0 as usize, r)
+    } else {
+        let n = (l0 & 0x7F) as usize;
+        if n == 0 || n > 4 || r.len() < n {
+            return None;
+        }
+        (r[..n].iter().fold(0usize, |a, x| (a << 8) | *x as usize), &r[n..])
+    };
+    if r.len() < len {
+        return None;
+    }
+    Some((tag, &r[..len], &r[len..]))
+}
+
+const OID_X: [u8; 3] = [0x2b, 0x65, 0x6e];
+const OID_ED: [u8; 3] = [0x2b, 0x65, 0x70];
+
+/// What an accepted PRIVATE key must look like, whatever the length encodings: SEQUENCE { INTEGER, SEQUENCE { OID
+/// X25519 | Ed25519 and nothing else }, OCTET STRING { OCTET STRING of 32 bytes } and nothing else } (bytes after
+/// the outer SEQUENCE are not looked at). Returns (is_ed25519, the 32 inner bytes).
+fn ref_private(der: &[u8]) -> Result<(bool, [u8; 32]), &'static str> {
+    let (t, body, _) = tlv_read(der).ok_or("outer element unreadable")?;
+    if t & 0x1F != 0x10 {
+        return Err("outer tag is not SEQUENCE");
+    }
+    let (t, _ver, rest) = tlv_read(body).ok_or("version unreadable")?;
+    if t & 0x1F != 0x02 {
+        return Err("first element is not an INTEGER");
+    }
+    let (t, alg, rest) = tlv_read(rest).ok_or("algorithm unreadable")?;
+    if t & 0x1F != 0x10 {
+        return Err("algorithm identifier is not a SEQUENCE");
+    }
+    let (t, oid, alg_rest) = tlv_read(alg).ok_or("OID unreadable")?;
+    if t & 0x1F != 0x06 || !alg_rest.is_empty() {
+        return Err("algorithm identifier is not exactly one OID");
+    }
+    let ed = if oid == OID_ED {
+        true
+    } else if oid == OID_X {
+        false
+    } else {
+        return Err("OID is neither X25519 nor Ed25519");
+    };
+    let (t, outer_os, rest) = tlv_read(rest).ok_or("key element unreadable")?;
+    if t & 0x1F != 0x04 || !rest.is_empty() {
+        return Err("third element is not an OCTET STRING closing the SEQUENCE");
+    }
+    if outer_os.len() != 34 || outer_os[0] != 0x04 || outer_os[1] != 32 {
+        return Err("the OCTET STRING does not hold an OCTET STRING of 32 bytes");
+    }
+    Ok((ed, outer_os[2..34].try_into().unwrap()))
+}
+
+/// Same for a PUBLIC key: SEQUENCE { SEQUENCE { OID }, BIT STRING of 32 bytes, no unused bit }.
+fn ref_public(der: &[u8]) -> Result<(bool, [u8; 32]), &'static str> {
+    let (t, body, _) = tlv_read(der).ok_or("outer element unreadable")?;
+    if t & 0x1F != 0x10 {
+        return Err("outer tag is not SEQUENCE");
+    }
+    let (t, alg, rest) = tlv_read(body).ok_or("algorithm unreadable")?;
+    if t & 0x1F != 0x10 {
+        return Err("algorithm identifier is not a SEQUENCE");
+    }
+    let (t, oid, alg_rest) = tlv_read(alg).ok_or("OID unreadable")?;
+    if t & 0x1F != 0x06 || !alg_rest.is_empty() {
+        return Err("algorithm identifier is not exactly one OID");
+    }
+    let ed = if oid == OID_ED {
+        true
+    } else if oid == OID_X {
+        false
+    } else {
+        return Err("OID is neither X25519 nor Ed25519");
+    };
+    let (t, bits, rest) = tlv_read(rest).ok_or("key element unreadable")?;
+    if t & 0x1F != 0x03 || !rest.is_empty() {
+        return Err("second element is not a BIT STRING closing the SEQUENCE");
+    }
+    if bits.len() != 33 {
+        return Err("the BIT STRING is not 32 whole bytes");
+    }
+    Ok((ed, bits[1..33].try_into().unwrap()))
+}
+
 /// Totality: mutants of the 4 valid DER blobs, raw and wrapped in PEM.
 fn totality(rep: &mut Report, thorough: bool) {
     let seed: [u8; 32] = core::array::from_fn(|i| (i * 5 + 1) as u8);
@@ -329,8 +423,46 @@ fn totality(rep: &mut Report, thorough: bool) {
         });
         match r {
             Err(p) => rep.violate(Violation { sig: json!({"kind": "panic", "panic": p.sig()}), detail: format!("parsing {} panics: {p:?}", hex::encode(m)), replay, weight: m.len() as u64 }),
-            Ok((sp, pp, sp2, pp2, _)) => {
+            Ok((sp, pp, sp2, pp2, many_raw_ok)) => {
+                // the multi-key parser takes PEM only: raw DER, a truncation of it or random bytes hold no PEM block,
+                // and an input without any key is not a list of keys
+                if many_raw_ok && !m.windows(10).any(|w| w == b"-----BEGIN") {
+                    rep.violate(Violation { sig: json!({"kind": "multi_key_parser_succeeds_on_input_without_any_key"}), detail: format!("parse_openssl_25519_pubkeys_pem_many({}) = Ok", hex::encode(m)), replay: replay.clone(), weight: m.len() as u64 });
+                }
                 rep.class(&format!("mutant/{}/{}", if *bi < 4 { blobs_ref[*bi].0 } else { "random" }, if sp.is_some() || pp.is_some() { "accepted" } else { "rejected" }));
+                // an accepted input is a key: the reference reading must find the same one
+                if let Some(sk) = sp {
+                    match ref_private(m) {
+                        Ok((ed, raw)) => {
+                            let want: [u8; 32] = if ed { Sha512::digest(raw)[..32].try_into().unwrap() } else { raw };
+                            if sk != want {
+                                rep.violate(Violation { sig: json!({"kind": "accepted_private_key_is_not_the_key_in_the_input"}), detail: hex::encode(m), replay: replay.clone(), weight: m.len() as u64 });
+                            }
+                        }
+                        Err(why) => rep.violate(Violation { sig: json!({"kind": "private_key_parser_accepts_malformed_input", "why": why}), detail: format!("{}: {why}", hex::encode(m)), replay: replay.clone(), weight: m.len() as u64 }),
+                    }
+                }
+                if let Some(pk) = pp {
+                    match ref_public(m) {
+                        Ok((ed, raw)) => {
+                            let want = if ed {
+                                curve25519_dalek::edwards::CompressedEdwardsY(raw).decompress().map(|p| p.to_montgomery().to_bytes())
+                            } else {
+                                Some(raw)
+                            };
+                            if want != Some(pk) {
+                                rep.violate(Violation { sig: json!({"kind": "accepted_public_key_is_not_the_key_in_the_input"}), detail: hex::encode(m), replay: replay.clone(), weight: m.len() as u64 });
+                            }
+                        }
+                        Err(why) => rep.violate(Violation { sig: json!({"kind": "public_key_parser_accepts_malformed_input", "why": why}), detail: format!("{}: {why}", hex::encode(m)), replay: replay.clone(), weight: m.len() as u64 }),
+                    }
+                }
+                // PEM: the block tag must name the kind of key (a private block is not a public key and vice versa)
+                let cross_priv = guard(|| parse_openssl_25519_privkey(&wrapped_pub).is_ok()).unwrap_or(false);
+                let cross_pub = guard(|| parse_openssl_25519_pubkey(&wrapped_priv).is_ok()).unwrap_or(false);
+                if cross_priv || cross_pub {
+                    rep.violate(Violation { sig: json!({"kind": "pem_tag_not_checked"}), detail: format!("{}: a PUBLIC KEY block accepted as private key: {cross_priv}; a PRIVATE KEY block accepted as public key: {cross_pub}", hex::encode(m)), replay: replay.clone(), weight: m.len() as u64 });
+                }
                 // raw DER and the same DER in PEM must agree
                 if sp != sp2 || pp != pp2 {
                     rep.violate(Violation { sig: json!({"kind": "pem_and_der_parse_differently"}), detail: format!("{}: raw DER -> ({:?},{:?}), PEM-wrapped -> ({:?},{:?})", hex::encode(m), sp.is_some(), pp.is_some(), sp2.is_some(), pp2.is_some()), replay: replay.clone(), weight: m.len() as u64 });
@@ -393,7 +525,7 @@ pub fn run(started: Instant) -> i32 {
         rep,
         Meta {
             level: "exploration",
-            rule: "round trips for seeds {00.., FF.., the 256 one-bit seeds, 64 seeded}: generate_keypair -> DER and PEM -> parse (strict and auto-detecting entry points) -> public = X25519(clamp(seed)) computed with x25519-dalek; Ed25519-form private/public (computed with curve25519-dalek) convert to a matching X25519 pair, also through PEM. PEM: line widths 1..76 x LF/CRLF x leading/trailing blank lines (an accepted variant must give the same key, the standard one must be accepted); 1..4 concatenated PEM public keys. Totality: for the 4 valid DER blobs every truncation, every byte x 256 values, pairs of positions x {00,FF,80}, trailing garbage, OID neighbours, and consistently re-framed DER (every inner payload length 0..34 with all lengths recomputed, wrong inner tags/lengths, versions, 6 OIDs, wrong outer tag, extra element; public BIT STRINGs of every length and unused-bit count), each also PEM-wrapped, plus random strings (supplementary): no panic, raw DER and PEM-wrapped DER agree, the multi-key PEM parser given the block at the first / middle / last position between two valid keys returns all keys in order if the block is a valid public key and an error otherwise, an accepted private key is the key material of the input".to_string(),
+            rule: "round trips for seeds {00.., FF.., the 256 one-bit seeds, 64 seeded}: generate_keypair -> DER and PEM -> parse (strict and auto-detecting entry points) -> public = X25519(clamp(seed)) computed with x25519-dalek; Ed25519-form private/public (computed with curve25519-dalek) convert to a matching X25519 pair, also through PEM. PEM: line widths 1..76 x LF/CRLF x leading/trailing blank lines (an accepted variant must give the same key, the standard one must be accepted); 1..4 concatenated PEM public keys. Totality: for the 4 valid DER blobs every truncation, every byte x 256 values, pairs of positions x {00,FF,80}, trailing garbage, OID neighbours, and consistently re-framed DER (every inner payload length 0..34 with all lengths recomputed, wrong inner tags/lengths, versions, 6 OIDs, wrong outer tag, extra element; public BIT STRINGs of every length and unused-bit count), each also PEM-wrapped, plus random strings (supplementary): no panic; whatever is accepted must be, under an independent reading of the two key shapes (any length encoding; outer SEQUENCE, INTEGER, AlgorithmIdentifier of exactly one OID among X25519/Ed25519, OCTET STRING holding an OCTET STRING of 32 bytes / BIT STRING of 32 whole bytes, nothing else inside), exactly the key found there; a PEM block of the wrong kind is refused; the multi-key parser does not succeed on an input that holds no PEM block at all; raw DER and PEM-wrapped DER agree, the multi-key PEM parser given the block at the first / middle / last position between two valid keys returns all keys in order if the block is a valid public key and an error otherwise, an accepted private key is the key material of the input".to_string(),
             exhaustive: true,
             bounds: json!({"seeds": 2 + 256 + 64, "pem_widths": "1..=76", "pair_mutations": if thorough { "all pairs" } else { "pairs with one position in the structural part" }}),
             assumptions: vec!["'all 32-byte seeds' is out of reach of enumeration; the code does not branch on seed bytes".to_string()],
